@@ -11,6 +11,7 @@ CONSTANTS
   EraseKeepsBug = FALSE
   PushFrontRetBug = FALSE
   ReleaseNoClear = FALSE
+  MoveAssignInPlaceBug = FALSE
 VIEW IView
 INVARIANTS RootsHaveNoParent
 CHECK_DEADLOCK FALSE
